@@ -10,6 +10,6 @@ CHECKS["C03"] = dict(
           "signed the certified block before that step, by ground truth; stated view = certified block's view), whose parent is "
           "the certified block and whose view is higher; block signatures have strictly increasing views; none at or below a "
           "view for which the replica signed a timeout before. Non-trivial = some honest replica both signed a block and "
-          "received a proposal that had to be refused; distinct = config+schedule."),
+          "received a proposal that had to be refused; distinct = config+schedule. Strategy runs (TestC03StrategyVotes): the same vote oracle over ALL strategies of two strategic views of a Byzantine replica that leads every view (see C01: which certificate the block extends, who sees it, equivocation, before or after the receivers' timers fired; 16,200 runs)."),
     assumptions=["the simulator edges, the signing tap and the fast keyed-hash base are trusted", "schedules are sampled"],
 )
